@@ -224,6 +224,18 @@ def fromtree(m, n, opt, mk, v, h, nf, **kw):
     return check_grammar(g, opt, _markov(mk, v, h, nf), ["R", "R2"])
 
 
+def _noncanon(sf):
+    """shard constants r2.. that cannot start a canonical rule (first occurrences must come in order)"""
+    seen = 0
+    i = 2
+    while "r%d" % i in sf:
+        if sf["r%d" % i] > seen + 1:
+            return True
+        seen = max(seen, sf["r%d" % i])
+        i += 1
+    return False
+
+
 def conds(tier):
     q = tier == "quick"
     cs = []
@@ -249,12 +261,12 @@ def conds(tier):
         if mk:
             sh += ["v"] + (["h"] if V >= 4 else [])
         cs.append(Cond("rule-V%d-%s" % (V, "markov" if mk else "det"), "harness.c07:rule", ps, fixed=fixed,
-                       pre=["r1 == 0", "_h.canon(%d, %s)" % (R, names)] + (["V >= 3 or not same"]),
-                       shard=sh, timeout=600 if q else 3000, functions=FUNCS[:8]))
+                       pre=["r1 == 0", "_h.canon(%d, %s)" % (R, names)] + (["not same"] if V < 3 else []),
+                       shard=sh, skip=_noncanon, timeout=600 if q else 3000, functions=FUNCS[:8]))
     for (m, n) in ([(2, 3), (2, 4)] if q else [(2, 3), (2, 4), (3, 4), (2, 5), (3, 5)]):
         ps = e1_params(m, n) + [P("opt", "bool"), P("mk", "bool"), P("v", "int", 0, 2 if q else 3), P("h", "int", 0, 2 if q else 3), P("nf", "bool")]
         cs.append(Cond("fromtree-m%d-n%d" % (m, n), "harness.c07:fromtree", ps, fixed={"m": m, "n": n},
                        pre=[e1_wf_expr(m, n), "mk or (v == 0 and h == 0 and not nf)"], shard=["opt", "mk"] + (["lp1"] if m ** n >= 60 else []) +
-                       (["v"] if n >= 5 else []),
+                       (["v"] if n >= 5 else []), skip=lambda sf: (not sf["mk"]) and bool(sf.get("v", 0)),
                        timeout=600 if q else 3000, functions=FUNCS))
     return cs
